@@ -49,7 +49,7 @@ TSucc(P, op) ==
 
 StepClauses(ev, P, Q, op) ==
   LET valid == TSucc(P, op) # {} IN
-  {<<"accepts_valid_call", valid => ev.ok>>,
+  {<<"accepts_valid_call", (valid /\ ~("mayreject" \in DOMAIN op)) => ev.ok>>,
    <<"effect", (valid /\ ev.ok) => Q \in TSucc(P, op)>>,
    <<"rejected_call_changes_nothing", ~ev.ok => Q = P>>,
    <<"invalid_call_changes_nothing", (~valid /\ ev.ok) => Q = P>>}
